@@ -1,5 +1,8 @@
 import Proofs.Decoders
+import Proofs.Syndrome
+import Proofs.Hamming
 import Theorems.C03
+import Theorems.C01
 /-!
 # C02 — hard-decision decoders correct every error pattern within advertised capability
 
@@ -46,7 +49,51 @@ theorem ml_corrects (d : DistInst) (hd : d ∈ Generated.C03.instances) (hk : d.
     (fun x m' hm' => (DecProofs.ml_is_nearest d.G d.n d.k x).2 m' hm')
     hmin (by omega) m e hm he
 
+/-- **the syndrome-table decoder** (first error pattern, by increasing weight, whose syndrome equals the
+received one; then the encoder's extraction) **returns the message for every error pattern of weight
+≤ t when 2t < d** — any parity-check matrix whose null space is the code, any n and k.  The pattern
+search is proved sound (what it returns has the requested syndrome) and complete (it cannot miss a
+pattern of the weight it is exploring). -/
+theorem syndrome_decoder_corrects (G HT R : List Nat) (n k d t : Nat)
+    (hsyn : ∀ m, encode HT (encode G m) = 0)
+    (hnull : ∀ x, x < 2 ^ n → encode HT x = 0 → ∃ m, m < 2 ^ k ∧ x = encode G m)
+    (hround : ∀ m, m < 2 ^ k → invEncode R (encode G m) = m)
+    (hd : ∀ m, m ≠ 0 → m < 2 ^ k → d ≤ weight n (encode G m))
+    (ht : 2 * t < d) (m e : Nat) (hm : m < 2 ^ k) (he : e < 2 ^ n) (hw : weight n e ≤ t) :
+    synDecode HT R n (encode G m ^^^ e) = m :=
+  SynProofs.syn_corrects G HT R n k d t hsyn hnull hround hd ht m e hm he hw
+
+/-- the table entry for any syndrome that occurs has that syndrome and minimum weight in its coset -/
+theorem syndrome_table_entry (HT : List Nat) (n e : Nat) (he : e < 2 ^ n) :
+    encode HT (tableLookup HT n (encode HT e)) = encode HT e ∧ tableLookup HT n (encode HT e) < 2 ^ n ∧
+      weight n (tableLookup HT n (encode HT e)) ≤ weight n e := SynProofs.tableLookup_spec HT n e he
+
+/-- catalogue instances (C01 certificates give the null-space and round-trip facts) -/
+theorem syndrome_decoder_instances (c : CodeInst) (hc : c ∈ Generated.C01.instances) (d t : Nat)
+    (hd : ∀ m, m ≠ 0 → m < 2 ^ c.k → d ≤ weight c.n (encode c.G m)) (ht : 2 * t < d)
+    (m e : Nat) (hm : m < 2 ^ c.k) (he : e < 2 ^ c.n) (hw : weight c.n e ≤ t) :
+    synDecode c.HT c.R c.n (encode c.G m ^^^ e) = m := by
+  have f := facts_of_ok c (C01.instances_ok c hc)
+  exact SynProofs.syn_corrects c.G c.HT c.R c.n c.k d t f.synd_zero f.null_space f.roundtrip hd ht m e hm he hw
+
+/-- **Hamming extraction corrects every single error**: whenever the columns of `H` are non-zero
+and pairwise distinct, code words have zero syndrome and message bit `i` sits at position `info[i]`,
+`inverse_encode` returns the message from the code word and from the code word with any one
+position flipped — any length (every μ), any information set -/
+theorem hamming_inverse_corrects (G HT info : List Nat) (k : Nat)
+    (hsyn : ∀ m, encode HT (encode G m) = 0)
+    (hcols : ∀ (i j a b : Nat), HT[i]? = some a → HT[j]? = some b → i ≠ j → a ≠ b)
+    (hnz : ∀ x ∈ HT, x ≠ 0)
+    (hlen : info.length = k)
+    (hinfo : ∀ (m i p : Nat), i < k → info[i]? = some p → (encode G m).testBit p = m.testBit i)
+    (m : Nat) (hm : m < 2 ^ k) :
+    hammingInverse HT info (encode G m) = m ∧
+    ∀ j, j < HT.length → hammingInverse HT info (encode G m ^^^ (1 <<< j)) = m :=
+  HamProofs.hamming_inverse_corrects G HT info k hsyn hcols hnz hlen hinfo m hm
+
 /-! ## non-vacuity -/
+example : hammingInverse [0b011, 0b101, 0b110, 0b111, 0b001, 0b010, 0b100] [0, 1, 2, 3]
+    (encode [0b0110001, 0b1010010, 0b1100100, 0b1111000] 0b1011 ^^^ (1 <<< 5)) = 0b1011 := by decide +kernel
 example : mlDecode [0b0001111, 0b0110011, 0b1010101] 7 3 0b0001110 = 0b001 := by decide +kernel
 
 end C02
